@@ -65,7 +65,8 @@ PALETTES = {
 }
 
 # id palettes: names whose sort order interleaves element kinds
-IDS_ASC = ["A", "Is", "L", "R", "Vs", "Z", "Zz", "a", "b", "c", "d", "e", "f", "g", "h", "i"]
+# nested on purpose: "A" is part of "IsA", "R" of "VsR", "Z" of "Zz" (substring tests instead of equality)
+IDS_ASC = ["A", "IsA", "L", "R", "VsR", "Z", "Zz", "a", "b", "c", "d", "e", "f", "g", "h", "i"]
 
 
 def chunks(seq, size):
